@@ -13,6 +13,7 @@ import scan_real as sr
 import scan_streams
 
 ID = "C16"
+SHRINKABLE = True     # replay() re-evaluates the oracle from the input alone
 TRUSTED = [
     "correspondence harness harness/props/C16.py",
     "modelled, not verified: the Pygments lexers (parameter `raw`); contract RawOk (contiguous offsets, value = text at offset) and `non-Text tokens are non-empty` checked on every explored text",
